@@ -354,6 +354,35 @@ func genC05(g *Gen, c09 bool) {
 			Desc: map[string]interface{}{"kind": "normset", "input": descTree(flat), "outcomes": descs},
 			Tags: []string{"normset", fmt.Sprintf("outcomes=%d", len(coqs))}, Nontrivial: len(flat) > 1})
 	}
+	// what one input means does not depend on the merge policy of the call it is given to: the
+	// spellings of one namespace are folded the same way under every policy
+	policyForms := []interface{}{
+		map[string]interface{}{"a": map[string]interface{}{"l": []interface{}{nil, uint64(1)}}, "a.l": []interface{}{uint64(2)}},
+		map[string]interface{}{"a.b": map[string]interface{}{"x": uint64(1)}, "a": map[string]interface{}{"b": map[string]interface{}{"y": uint64(2)}, "c": uint64(3)}},
+		struct {
+			B int            `config:"a.b"`
+			A map[string]int `config:"a"`
+		}{1, map[string]int{"c": 2}},
+		struct {
+			X int              `config:"a.1"`
+			A []map[string]int `config:"a"`
+		}{3, []map[string]int{{"k": 1}}},
+	}
+	for i := 0; i < n/8; i++ {
+		policyForms = append(policyForms, overlapRandom(r, tc))
+	}
+	for _, m := range policyForms {
+		c0, d0 := normObs(m, normOpts{Sep: "."})
+		for pol := 1; pol < len(policyOpts); pol++ {
+			cp, dp := normObs(m, normOpts{Sep: ".", Pol: pol})
+			if strings.HasPrefix(c0, "(OE") && strings.HasPrefix(cp, "(OE") {
+				continue // rejected either way
+			}
+			g.Add(Case{Coq: fmt.Sprintf("CSame %s %s %s", coqStr("policy-independent"), c0, cp),
+				Desc: map[string]interface{}{"kind": "same", "what": "one input normalized under the default policy and under " + policyOpts[pol].name, "input": fmt.Sprintf("%v", m), "default": d0, policyOpts[pol].name: dp},
+				Tags: []string{"same:policy"}, Nontrivial: true})
+		}
+	}
 	for i := 0; i < n/4; i++ {
 		o := normOpts{Sep: "."}
 		m := overlapRandom(r, tc)
